@@ -11,7 +11,7 @@ from . import common
 
 META = {
     'design_ref': 'DESIGN.md §5 C02',
-    'technique': "writer/reader agreement decided on automata: dump template extracted from _dump_format (marker-aware rstrip, strip-loss hazard), instantiated with the property's value grammar, split into reader lines and pushed through the reader's line classes, which are read off the paths of _internal_parser with locals substituted away (marked-language capture agreement for key and first line); _skip_useless_lines as a language-level filter per input type and position (bytes/str twins compared as languages); split_gpg_and_payload and the key side of validate_input decided on paths with locals substituted away (payload normalisation per append path, separator choice and accepted field names as languages); injectivity of the writer under constant substitutions on the value (automaton witness v, v.replace(old,new) both in the domain); who-may-call rule: the paragraph splitter only receives lines that went through the comment / blank-line filter; dataflow rule: the encoding that turns text lines into bytes reaches the decoder; piecewise-encoding rule: every str.encode reached per piece (loop, comprehension, generator, helper) uses a decided signature-free codec",
+    'technique': "writer/reader agreement decided on automata: dump template extracted from _dump_format (marker-aware rstrip, strip-loss hazard), instantiated with the property's value grammar, split into reader lines and pushed through the reader's line classes, which are read off the paths of _internal_parser with locals substituted away (marked-language capture agreement for key and first line); _skip_useless_lines as a language-level filter per input type and position (bytes/str twins compared as languages); split_gpg_and_payload and the key side of validate_input decided on paths with locals substituted away (payload normalisation per append path, separator choice and accepted field names as languages); injectivity of the writer under constant substitutions on the value (automaton witness v, v.replace(old,new) both in the domain); who-may-call rule: the paragraph splitter only receives lines that went through the comment / blank-line filter; dataflow rule: the encoding that turns text lines into bytes reaches the decoder; piecewise-encoding rule: every str.encode reached per piece (loop, comprehension, generator, helper) uses a decided signature-free codec; the constructor of the signed-document classes interpreted under the calling conventions for text and bytes lines (line codec = decoding codec; every line reaches the armor splitter); class-level containers are not changed through an instance",
     'level_text': 'Static decision for all keys/values of the stated grammar: every dumped line is routed by the reader\'s '
                   'regex cascade to the intended branch, the key and the trimmed first line are captured exactly, continuation '
                   'lines are kept verbatim, no line is taken as separator/PGP/comment; both newline conventions.  Structural '
@@ -667,6 +667,31 @@ def r8_piecewise_encoding(rep, src):
                         val = binds[0].value.value
                     elif not binds and isinstance(mod.consts.get('', {}).get(codec.id), str):
                         val = mod.consts[''][codec.id]              # a module-level constant
+                else:
+                    # a parameter of this function: what its callers (in the module) pass there -- one and the same constant
+                    ps_ = [a.arg for a in f.node.args.args]
+                    if codec.id in ps_:
+                        pos_ = ps_.index(codec.id) - (1 if ps_ and ps_[0] in ('self', 'cls') else 0)
+                        vals_ = set()
+                        for g in mod.funcs.values():
+                            for c2 in ast.walk(g.node):
+                                if isinstance(c2, ast.Call) and isinstance(c2.func, (ast.Attribute, ast.Name)) and (
+                                        c2.func.attr if isinstance(c2.func, ast.Attribute) else c2.func.id) == f.node.name:
+                                    a2 = c2.args[pos_] if len(c2.args) > pos_ else next((k_.value for k_ in c2.keywords if k_.arg == codec.id), None)
+                                    if isinstance(a2, ast.Constant):
+                                        vals_.add(a2.value)
+                                    elif isinstance(a2, ast.Name):
+                                        b2 = [st for st in ast.walk(g.node) if isinstance(st, ast.Assign) and any(isinstance(t, ast.Name) and t.id == a2.id for t in st.targets)]
+                                        if len(b2) == 1 and isinstance(b2[0].value, ast.Constant) and a2.id not in [x.arg for x in g.node.args.args]:
+                                            vals_.add(b2[0].value.value)
+                                        elif not b2 and isinstance(mod.consts.get('', {}).get(a2.id), str):
+                                            vals_.add(mod.consts[''][a2.id])
+                                        else:
+                                            vals_.add(None)
+                                    else:
+                                        vals_.add(None)
+                        if len(vals_) == 1 and isinstance(next(iter(vals_)), str):
+                            val = next(iter(vals_))
             elif isinstance(codec, ast.Attribute) and isinstance(codec.value, ast.Name) and codec.value.id in ('self', 'cls') and f.cls:
                 # a class-level constant that no method of the class family re-binds
                 node_, _c = mod.class_const_node(f.cls, codec.attr)
